@@ -41,13 +41,18 @@ structure BlockRes where
   txs : List Bytes := []
   deriving DecidableEq, Repr
 
-/-! ## the indexer of one store object or read-only view: `Indexer.db`, a `Txn` with `sort = false`
-over the historical reader at the view's version -/
+/-! ## the indexer of one store object or read-only view: `Indexer.db`, a `Txn` over the historical reader at
+the view's version. A `Txn` keeps its operations in a hash map (`ops`: what `Get` consults) and — only when it
+was built with `sort = true` — also in the sorted tree (`sorted`) its iterators merge with the parent's. -/
 
 structure IView where
   idb : DB
   version : Nat
+  /-- `txn.ops`: the pending operations point reads see -/
   pend : Overlay := []
+  /-- `txn.sorted`: the pending operations iteration sees — `pend` for a `Txn` built with `sort = true`,
+  nothing for one built with `sort = false` (and nothing for a read-only view, which has no writes) -/
+  ipend : Overlay := []
 
 /-- `Txn.Get`: pending operations first, then the versioned store; absent = empty -/
 def IView.getB (v : IView) (k : Bytes) : Bytes :=
@@ -55,10 +60,16 @@ def IView.getB (v : IView) (k : Bytes) : Bytes :=
   | some op => (op.read).getD []
   | none => ((VS.mk v.idb v.version).get (idxPrefix ++ k)).getD []
 
-/-- `Txn.Iterator` of a txn with `sort = false`, `seek = false`: pending operations are invisible, the
-linear forward strategy runs -/
-def IView.iter (v : IView) (p : Bytes) : List (Bytes × Bytes) :=
+/-- the parent iterator: the versioned store under the indexer prefix, `seek = false` (linear forward strategy) -/
+def IView.dbIter (v : IView) (p : Bytes) : List (Bytes × Bytes) :=
   ((VS.mk v.idb v.version).iter (idxPrefix ++ p) false false).map fun kv => (kv.1.drop idxPrefix.length, kv.2)
+
+/-- `Txn.Iterator`: the `TxnIterator` merge (C10's `mergeRun`) of the sorted pending operations under the
+prefix with the parent iterator -/
+def IView.iter (v : IView) (p : Bytes) : List (Bytes × Bytes) :=
+  match v.ipend with
+  | [] => v.dbIter p   -- nothing to merge: the merge of no items with the parent is the parent
+  | ov => mergeRun false (txnItems ov p false) (v.dbIter p)
 
 /-- `GetTxsByHeightNonPaginated(h, false)`: the tx hashes in index order -/
 def IView.txsByHeight (v : IView) (h : Nat) : List Bytes :=
@@ -155,9 +166,13 @@ structure IState where
   /-- pending operations of the store's indexer txn -/
   idxOv : Overlay := []
   cache : Cache := []
+  /-- the `sort` flag the block-level indexer `Txn` is built with (`NewStoreWithDB`, `Reset`): `true` is the
+  code as it stands (derived from generated facts in `Props/C10.lean`), `false` the code before -/
+  idxSort : Bool := true
 
 /-- the indexer of the store object itself -/
-def IState.live (s : IState) : IView := { idb := s.idb, version := s.st.version, pend := s.idxOv }
+def IState.live (s : IState) : IView :=
+  { idb := s.idb, version := s.st.version, pend := s.idxOv, ipend := if s.idxSort then s.idxOv else [] }
 /-- the indexer of `NewReadOnly(v)` -/
 def IState.ro (s : IState) (v : Nat) : IView := { idb := s.idb, version := v }
 
@@ -195,7 +210,7 @@ def IState.rollback (s : IState) (t : Nat) : Option IState :=
   | none => none
   | some st' =>
     if t = s.st.version then some s
-    else some { st := st', idb := idxPrune s.idb (t + 1) s.st.version, idxOv := [], cache := [] }
+    else some { s with st := st', idb := idxPrune s.idb (t + 1) s.st.version, idxOv := [], cache := [] }
 
 /-- the operations of the process: the store operations of C10 (commit and rollback act on state and
 indexer together), indexing, abandoning a commit, and the reads that go through — and write — the
